@@ -155,6 +155,12 @@ def install_spec(reg):
 
     sf["bcall_recv"] = bcall_recv
 
+    def last_bcall(it):
+        evs = [e for e in it.ctx.trace if e[0] == "bcall"]
+        return VStr(evs[-1][1][1] if evs else "")
+
+    sf["last_bcall"] = last_bcall
+
     def iter_call_arg(it, suffix, i):
         """argument i of THE call (by contract) of a function named ...suffix in the current loop
         iteration; proves there is exactly one such call in the iteration"""
@@ -316,6 +322,9 @@ def sc_clauses(inp):
          "(bcalls('connectionLost') == 0 or bcall_recv('connectionLost', 0) == self._protocol) and "
          "(bcalls('readConnectionLost') == 0 or bcall_recv('readConnectionLost', 0) == self._protocol) and "
          "(bcalls('writeConnectionLost') == 0 or bcall_recv('writeConnectionLost', 0) == self._protocol)"),
+        ("read-side-callbacks-are-the-last-thing-the-input-does",
+         "bcalls('dataReceived', 'connectionLost', 'readConnectionLost') == 0 or "
+         "last_bcall() in ('dataReceived', 'connectionLost', 'readConnectionLost')"),
         ("write-side-never-reopens", "not w_open(self) or old(w_open(self)) or old(in_state(self, 'unconnected'))"),
         ("read-side-never-reopens", "not r_open(self) or old(r_open(self)) or old(in_state(self, 'unconnected'))"),
         ("closed-is-absorbing", "not old(in_state(self, 'closed')) or in_state(self, 'closed')"),
@@ -665,9 +674,34 @@ CONTRACTS = SC_CONTRACTS + DEMUX_CONTRACTS + INB_CONTRACTS + WIRING_CONTRACTS
 
 
 def tasks():
-    return [ContractTask(c, regf_wiring if c in WIRING_CONTRACTS else regf) for c in CONTRACTS]
+    out = [ContractTask(c, regf_wiring if c in WIRING_CONTRACTS else regf) for c in CONTRACTS]
+    # "the two sides never allocate the same subchannel id": role agreement + id parity, shared with C11
+    from . import c11
+    out += [t for t in c11.tasks() if t.contract in c11.ROLE_CONTRACTS]
+    return out
 
 
-TRUSTED = ["z3/cvc5", "pyvc semantics of the Python subset and of Automat dispatch (state set first, outputs in order, "
-           "no row => automat.NoTransition with the state unchanged; tables extracted from the class body on every run)"]
-ASSUMPTIONS = []
+TRUSTED = ["z3/cvc5",
+           "pyvc semantics of the Python subset and of Automat dispatch (state set first, outputs in order, an input without a "
+           "row raises automat.NoTransition with the state unchanged; tables are extracted from the class body on every run)",
+           "zope: IHalfCloseableProtocol.providedBy(p) is a fixed Boolean property of p (False for None); IHalfCloseableProtocol(p) "
+           "is p when provided, TypeError otherwise; ISubChannel.providedBy is true of SubChannel instances",
+           "SubchannelAddress (attrs value class with one str field) is modelled as a named tuple; collections.defaultdict(deque) "
+           "as a typed map whose missing keys read as an empty deque (pyvc `defaultdict[K,seq[V]]`)",
+           "collaborators (manager, application Protocol / Factory, Inbound/Outbound/observers built by Manager, Dilator as seen "
+           "from Boss) are boundary objects: every call on them is recorded with receiver and arguments and returns an arbitrary value"]
+ASSUMPTIONS = [
+    "re-entrancy from application callbacks is not modelled as such; what is proved instead: dataReceived / connectionLost / "
+    "readConnectionLost are the LAST boundary call of their input, so a re-entrant write()/loseConnection() from them is the same as "
+    "calling it afterwards, which the per-state contracts cover from every state (_deliver_queued_data is verified from every "
+    "read-open state for the same reason: connectionMade may already have closed the write side). writeConnectionLost in "
+    "open_half.local_close runs BEFORE send_close: a re-entrant call from that one callback is not covered",
+    "application callbacks do not raise",
+    "peer conformance used nowhere as a precondition: DATA/CLOSE after the peer's CLOSE and writes on a closed subchannel are part of the "
+    "contracts (automat.NoTransition / AlreadyClosedError, nothing delivered or sent)",
+    "delivery of OPEN/DATA/CLOSE records across the wire, in order and exactly once, is C10/C12; here: what each end does with them",
+    "SubchannelConnectorEndpoint.connect and SubchannelListenerEndpoint.listen are inlineCallbacks generators: outside the pyvc subset, "
+    "not under contract (their bodies are the call sequence allocate_subchannel_id / send_open / SubChannel / subchannel_local_open / "
+    "buildProtocol / _set_protocol / makeConnection, each piece of which is under contract here)",
+    "make_side() is modelled as returning some str in Dilator.dilate (its value plays no role in the wiring obligation)",
+]
